@@ -4,6 +4,11 @@ implementation; every random choice comes from the rng passed in."""
 
 NAMES = ["id", "a", "b2", "settings", "dropped", "use_count", "grants", "user_id", "Name", "created_at", "amount", "x_1", "col", "ZIP", "descr", "k9", "val", "ts_col", "qty"]
 KW_NAMES = ["comment", "order", "start", "cache", "type", "schema", "default", "key", "table", "add", "no", "data", "location", "format"]
+# words that start other kinds of statements (or look like them): as column names they are ordinary identifiers, also at the
+# beginning of a line of a multi-line CREATE TABLE
+STMT_LIKE_NAMES = ["begin", "end", "commit", "rollback", "update", "select", "merge", "truncate", "call", "declare", "exec", "revoke",
+                   "analyze", "replace", "show", "explain", "lock", "unlock", "savepoint", "release", "values", "from", "where",
+                   "go_x", "use_case", "inserted", "granted", "deleted", "set_x", "create_x", "alter_x", "drop_x", "Begin", "END", "Commit"]
 TABLE_NAMES = ["t", "orders", "Users", "line_items", "tbl_2", "A", "settings", "created_items", "dropbox", "altered_rows", "users_go"]
 SCHEMAS = [None, None, "s", "public", "Dev"]
 TYPES1 = ["int", "INT", "integer", "bigint", "text", "date", "timestamp", "boolean", "float", "uuid", "Serial"]
@@ -106,12 +111,18 @@ def gen_table(rng, ncols=None, constraints=True, kw_names=False, name=None, sche
         t["cols"][rng.randrange(n)]["opts"].append(("pk",))
     if not constraints:
         return t
+    def pk_variant(k):
+        # SQL Server spellings and sort directions after the key columns (any letter case): they never add or remove a key column
+        if rng.random() < 0.6:
+            return None
+        return {"kind": rng.choice([None, "CLUSTERED", "NONCLUSTERED"]),
+                "orders": [rng.choice([None, None, "ASC", "DESC", "asc", "Desc"]) for _ in range(k)]}
     if pk_mech == "clause":
         k = rng.randint(1, min(3, n))
-        t["items"].append(("pk", None, rng.sample(names, k)))
+        t["items"].append(("pk", None, rng.sample(names, k), pk_variant(k)))
     elif pk_mech == "named":
         k = rng.randint(1, min(3, n))
-        t["items"].append(("pk", "pk_" + t["name"], rng.sample(names, k)))
+        t["items"].append(("pk", "pk_" + t["name"], rng.sample(names, k), pk_variant(k)))
     for _ in range(rng.choice([0, 0, 1, 1, 2, 3])):
         kd = rng.choice(["uniq", "uniq", "nuniq", "fk", "nfk", "check", "ncheck"])
         if kd == "uniq":
@@ -176,6 +187,10 @@ def render_column(c, rng=None):
 def render_item(it, rng=None):
     if it[0] == "pk":
         s = (kw(rng, "CONSTRAINT") + " %s " % it[1]) if it[1] else ""
+        v = it[3] if len(it) > 3 else None
+        if v:
+            cols = ["%s%s" % (c, (" " + o) if o else "") for c, o in zip(it[2], v["orders"])]
+            return s + kw(rng, "PRIMARY") + " " + kw(rng, "KEY") + ((" " + v["kind"]) if v["kind"] else "") + " (%s)" % ", ".join(cols)
         return s + kw(rng, "PRIMARY") + " " + kw(rng, "KEY") + " (%s)" % ", ".join(it[2])
     if it[0] == "unique":
         s = (kw(rng, "CONSTRAINT") + " %s " % it[1]) if it[1] else ""
@@ -239,11 +254,15 @@ def expected_table(t):
     pk = list(inline_pk)
     constraints = {}
     checks = []
+    table_properties = {}
     for it in t["items"]:
         if it[0] == "pk":
             pk = list(it[2])
             if it[1]:
                 constraints.setdefault("primary_keys", []).append({"columns": list(it[2]), "constraint_name": it[1]})
+            v = it[3] if len(it) > 3 else None
+            if v and v["kind"] == "CLUSTERED":
+                table_properties["clustered_primary_key"] = [{"column": c, "order": o.upper()} for c, o in zip(it[2], v["orders"]) if o]
         elif it[0] == "unique":
             if it[1]:
                 constraints.setdefault("uniques", []).append({"columns": list(it[2]), "constraint_name": it[1]})
@@ -275,6 +294,8 @@ def expected_table(t):
     if constraints:
         out["constraints"] = constraints
     out["tablespace"] = None
+    if table_properties:
+        out["table_properties"] = table_properties
     return out
 
 
